@@ -1,5 +1,8 @@
 """Command line: python3-vt -m pyvc.run <qualified function> ...  (debug driver)."""
-import sys, json
+import os, sys, json
+if os.environ.get("PYTHONHASHSEED") != "0":   # same query text on every run (see ./check)
+    os.environ["PYTHONHASHSEED"] = "0"
+    os.execv(sys.executable, [sys.executable, "-m", "pyvc.run"] + sys.argv[1:])
 sys.path.insert(0, "/verif")
 from pyvc.core import Verifier
 import contracts as C
@@ -23,6 +26,7 @@ def main():
                 if not cn["reachable"]:
                     print("   DEAD", cn)
             if "-t" in sys.argv:
+                print("   SOLVER", r.get("solver"))
                 for o in sorted(r["obligations"], key=lambda o: -o["ms"])[:8]:
                     print("   SLOW %.0fms" % o["ms"], o["verdict"], o["name"], o["note"][:90])
             if "-v" in sys.argv:
